@@ -524,14 +524,17 @@ impl<'l, Data> EventLoop<'l, Data> {
 
             if let Some(disp) = opt_disp {
                 trace!(source = reg_token.get_id(), "Dispatching events for source");
-                let mut ret = disp.process_events(event.readiness, event.token, data)?;
+                let result = disp.process_events(event.readiness, event.token, data);
 
                 // if the returned PostAction is Continue, it may be overwritten by a user-specified pending action
+                // (taken out of the cell before a processing error is propagated, so that it cannot leak to
+                // another source in a later dispatch)
                 let pending_action = self
                     .handle
                     .inner
                     .pending_action
                     .replace(PostAction::Continue);
+                let mut ret = result?;
                 if let PostAction::Continue = ret {
                     ret = pending_action;
                 }
